@@ -37,6 +37,7 @@ impl Ent {
 
 /// run `f` with a fresh source in the given entropy state; Err(panic message) if it unwinds
 pub fn with_source<T>(e: &Ent, f: impl FnOnce(&mut GenerationSource) -> T) -> Result<T, String> {
+    let _w = crate::watch::enter_light();
     let r = catch_unwind(AssertUnwindSafe(|| match e {
         Ent::Bytes(b) => {
             let mut u = Unstructured::new(b);
